@@ -14,7 +14,7 @@ import (
 )
 
 func init() {
-	Register(&Scenario{Prop: "C17", Name: "concurrent-writers", Run: scenC17, Weight: 1,
+	Register(&Scenario{Prop: "C17", Name: "concurrent-writers", Run: scenC17, SoftParks: true, Weight: 1,
 		Rule: "one key-value or event-log store on one node (replication off); 2-8 client goroutines each doing 1-3 writes, plus reader operations, with the three write-path hooks (after the log append, after the head is persisted, after the view update) active so that every writer parks there and the kernel releases one parked goroutine at a time in a drawn order (for 2 writers x 1 write every interleaving of the 2x3 park points is reachable and the space is covered many times over in the quick tier); oracle: every successful call returned a distinct entry, all are in the log and view when the writers finish, the invoke/return history (stamped with a global event counter) is linearizable against a sequential map/list model (porcupine), every crash prefix of the node's effect log recovers every entry acknowledged at or before it, and after clean close + reopen + Load(-1) all acknowledged entries are there; non-trivial = >=2 writers were parked at the same time at least once"})
 }
 
